@@ -31,7 +31,7 @@ RULE = (
     "block-1, block, block+1, 2*block+3} x CUDA block size in {1,2,32,256}. Block bodies are index-local and "
     "instrumented: cnt[i] += 1; y[i] = 2*x[i] + K (+ terms that are active only when a context-restricted line / an "
     "included file is active for the target), on arrays with canary slots behind n. Oracle: on ContextCpu() and "
-    "ContextCpu(omp_num_threads=2) (ctx.add_kernels, ctx.kernels.<k>) and for the opencl / cuda expansions compiled "
+    "ContextCpu(omp_num_threads=2) and ContextCpu(omp_num_threads=1) (ctx.add_kernels, ctx.kernels.<k>) and for the opencl / cuda expansions compiled "
     "on the host and driven by the launch geometry recorded from the real KernelPyopencl.__call__ / "
     "KernelCupy.__call__: every index 0..n-1 of every block is executed exactly once, canaries untouched, y equals "
     "the per-target reference for every n including 0; structurally: context-restricted lines are active exactly on "
@@ -72,6 +72,9 @@ def cases(draw, tier):
         inc = None
         if draw(st.integers(0, 2)) == 0:
             inc = {"targets": draw(st.lists(st.sampled_from(TARGETS), min_size=0, max_size=4, unique=True)), "bias": draw(st.integers(1, 9))}
+            if draw(st.integers(0, 2)) == 0:
+                # the same file named by a second directive with another context list
+                inc["targets2"] = draw(st.lists(st.sampled_from(TARGETS), min_size=1, max_size=4, unique=True))
         outer = None
         if draw(st.integers(0, 2)) == 0:
             outer = {"targets": draw(st.lists(st.sampled_from(TARGETS), min_size=1, max_size=3, unique=True)), "c": draw(st.integers(1, 9)) * 10000}
@@ -109,6 +112,8 @@ def make_source(case):
             fname = f"vf_inc_{j}.h"
             files[fname] = f"#define VF_BIAS_{j} {k['include']['bias']}\n/* included file {j} */\n"
             lines.append(f"//include_file {fname} for_context {' '.join(k['include']['targets'])}")
+            if k["include"].get("targets2"):
+                lines.append(f"//include_file {fname} for_context {' '.join(k['include']['targets2'])}")
         lines += [f"#ifndef VF_BIAS_{j}", f"#define VF_BIAS_{j} 0", "#endif"]
         if any(b["helper"] for b in k["blocks"]):
             lines.append(f"/*gpufun*/ double vf_helper_{j}(double x, int k)" + "{")
@@ -151,7 +156,7 @@ def reference(case, j, target, x):
     nb = len(k["blocks"])
     cnt = np.zeros(nb * stride, dtype="int32")
     y = np.full(nb * stride, SENT)
-    bias = k["include"]["bias"] if k["include"] is not None and target in k["include"]["targets"] else 0
+    bias = k["include"]["bias"] if k["include"] is not None and target in _inc_targets(k["include"]) else 0
     outer = k["outer"]["c"] if k["outer"] is not None and target in k["outer"]["targets"] else 0
     for b, blk in enumerate(k["blocks"]):
         extra = blk["restricted"]["c"] if blk["restricted"] is not None and target in blk["restricted"]["targets"] else 0
@@ -159,6 +164,10 @@ def reference(case, j, target, x):
             cnt[b * stride + i] = 1
             y[b * stride + i] = 2 * x[i] + blk["k"] + bias + outer + extra
     return cnt, y
+
+
+def _inc_targets(inc):
+    return set(inc["targets"]) | set(inc.get("targets2", []))
 
 
 def launch_geometry(n, block):
@@ -261,8 +270,10 @@ def run_case(case):
         for j, k in enumerate(case["kernels"]):
             if k["include"] is not None:
                 present = f"/* included file {j} */" in r
-                if present != (t in k["include"]["targets"]):
-                    return fail("include_file_splicing", f"{t}: file of kernel {j} for_context {k['include']['targets']}: spliced={present}", "spliced_where_not_named" if present else "missing_where_named", labels)
+                if k["include"].get("targets2"):
+                    labels.add("include_file_named_twice")
+                if present != (t in _inc_targets(k["include"])):
+                    return fail("include_file_splicing", f"{t}: file of kernel {j} for_context {sorted(_inc_targets(k['include']))}: spliced={present}", "spliced_where_not_named" if present else "missing_where_named", labels)
         for ph in ("/*gpukern*/", "/*gpufun*/", "/*gpuglmem*/", "/*restrict*/"):
             if ph in r:
                 return fail("placeholder_left", f"{t}: {ph} not substituted", ph, labels)
@@ -286,8 +297,8 @@ def run_case(case):
         return None
 
     _n[0] += 1
-    for t in ("cpu_serial", "cpu_openmp"):
-        ctx = xo.ContextCpu() if t == "cpu_serial" else xo.ContextCpu(omp_num_threads=2)
+    for t, nthreads in (("cpu_serial", 0), ("cpu_openmp", 2), ("cpu_openmp", 1)):
+        ctx = xo.ContextCpu() if t == "cpu_serial" else xo.ContextCpu(omp_num_threads=nthreads)
         kerns = {}
         for j in range(nk):
             kerns[f"vfk{j}"] = xo.Kernel(c_name=f"vfk{j}", args=[
@@ -295,7 +306,7 @@ def run_case(case):
                 xo.Arg(xo.Int32, pointer=True, name="cnt"), xo.Arg(xo.Int64, name="n"), xo.Arg(xo.Int64, name="stride")], n_threads="n")
         r = sut(ctx.add_kernels, sources=[src], kernels=kerns, extra_compile_args=("-O1", "-Wno-unused-function"), extra_link_args=())
         if is_raised(r):
-            return fail("cpu_build_failed", f"{t}: {r}", f"{t}|{r.key}", labels)
+            return fail("cpu_build_failed", f"{t} ({nthreads} threads): {r}", f"{t}|{r.key}", labels)
         for j in range(nk):
             for rep in range(2):  # twice: per call, not per lifetime
                 cnt, y = fresh(j)
